@@ -980,7 +980,7 @@ def run_compare(
                 add_block_stats(block_stats)
                 if tsv_multiway_file:
                     sample_name = (
-                        "_".join(set(sample_names)) if ignore_sample_name else sample_names[0]
+                        "_".join(sorted(set(sample_names))) if ignore_sample_name else sample_names[0]
                     )
                     for (dataset_list0, dataset_list1), count in multiway_results.items():
                         print(
